@@ -95,7 +95,11 @@ func (s *syncSource) RequestBlock(ctx context.Context, hash bitcoin.Hash32, hand
 	behaviour := "deliver"
 	if list := s.script[label]; len(list) > 0 {
 		behaviour = list[0]
-		s.script[label] = list[1:]
+		if strings.HasSuffix(behaviour, "*") {
+			behaviour = strings.TrimSuffix(behaviour, "*") // repeated for every further request
+		} else {
+			s.script[label] = list[1:]
+		}
 	}
 	s.log = append(s.log, label)
 	if b != nil {
@@ -129,6 +133,25 @@ func (s *syncSource) RequestBlock(ctx context.Context, hash bitcoin.Hash32, hand
 		feed(b)
 	case "silent":
 		// the node accepts the request and never answers
+	case "slow":
+		// a healthy but slow source: the download starts at once and the transaction arrives 150
+		// virtual seconds later (30 request-delay ticks), unless the request is cancelled meanwhile
+		node.mu.Lock()
+		node.registered = true
+		node.called = true
+		node.mu.Unlock()
+		vsched.GoNamed("slow-node-"+label, func() {
+			ch := make(chan *wire.MsgTx, 2)
+			vsched.GoNamed("slow-handler-"+label, func() { handler(bg, b.header, 1, ch) })
+			vsched.Sleep(150 * time.Second)
+			node.mu.Lock()
+			closed := node.closed
+			node.mu.Unlock()
+			if !closed {
+				vsched.Send(ch, b.tx)
+			}
+			vsched.Close(ch)
+		})
 	case "stall":
 		// the one asynchronous source: the download starts (handler running) but the transaction only
 		// arrives 12 virtual seconds later - time for the manager to ask a second source, which
@@ -276,7 +299,7 @@ func syncScenario(c syncConfig) func() func() []string {
 			nm.Wait(bg) // all synchronisation rounds are over
 			for _, list := range c.script {
 				for _, b := range list {
-					if b == "stall" {
+					if b == "stall" || b == "slow" {
 						// the block manager keeps running after a round: let a stalled download play out
 						vsched.Sleep(20 * time.Second)
 					}
@@ -429,6 +452,9 @@ func c05Scenarios(thorough bool) []*scenario {
 	// a transient error of the transaction processor while a block is being confirmed: the block is
 	// asked for again, and is not on record as processed in the meantime
 	add(syncConfig{length: 3, start: 1, confirmErr: []int{2}}, 0)
+	// one healthy but slow source and nobody else to ask: the reader keeps waiting for it (every
+	// further request for the block finds no node), and goes on when the block arrives
+	add(syncConfig{length: 2, start: 1, concurrent: 2, script: map[string][]string{"a1": {"slow", "none*"}}}, 0)
 	// two sources for one block: the first stalls mid-download, the second (asked after the block
 	// request delay) finishes first; the stalled one must not get the block processed a second time
 	add(syncConfig{length: 2, start: 1, concurrent: 2, script: map[string][]string{"a1": {"stall"}}}, 0)
